@@ -475,4 +475,26 @@ mod verif_kani {
         assert!(a.signum() == if a.0 > 0 { 1 } else if a.0 < 0 { -1 } else { 0 });
         kani::cover!(true);
     }
+
+    /// The std facts the Verus unit `int` ASSUMES (assume_specification of i32::{checked_shr, checked_neg,
+    /// checked_abs, signum}, Ordering::reverse, i32: TryFrom<u32>/TryFrom<i32>), checked on the real std.
+    #[kani::proof]
+    fn c10_std_integer_specs_assumed_by_verus() {
+        use std::cmp::Ordering;
+        let (x, y): (i32, u32) = (kani::any(), kani::any());
+        assert!(x.checked_shr(y) == if y < 32 { Some(x >> y) } else { None });
+        assert!(x.checked_neg() == if x != i32::MIN { Some(-x) } else { None });
+        assert!(x.checked_abs() == if x != i32::MIN { Some(if x < 0 { -x } else { x }) } else { None });
+        assert!(x.signum() == if x > 0 { 1 } else if x < 0 { -1 } else { 0 });
+        assert!(i32::try_from(y).ok() == if y <= i32::MAX as u32 { Some(y as i32) } else { None });
+        assert!(i32::try_from(x).ok() == Some(x));
+        assert!(Ordering::Less.reverse() == Ordering::Greater);
+        assert!(Ordering::Greater.reverse() == Ordering::Less);
+        assert!(Ordering::Equal.reverse() == Ordering::Equal);
+        // arithmetic shift right is floor division by 2^y
+        if y < 32 {
+            assert!((x >> y) as i64 == (x as i64).div_euclid(1i64 << y));
+        }
+        kani::cover!(y >= 32);
+    }
 }
